@@ -5,10 +5,10 @@ package main
 // discharged by a dominating guard or by a frozen reason.
 
 import (
-	"os"
 	"fmt"
 	"go/token"
 	"go/types"
+	"os"
 	"strings"
 
 	"golang.org/x/tools/go/ssa"
@@ -37,6 +37,7 @@ func lookupReasonSite(table []siteReason, fns []string, kind string, exprs []str
 		}
 		okF := r.fn == ""
 		for _, fn := range fns {
+			fn = nameBack(fn)
 			rb := r.fn
 			if i := strings.Index(rb, "$"); i >= 0 {
 				rb = rb[:i] // a reason naming a function literal also covers its enclosing function's other literals
@@ -45,9 +46,16 @@ func lookupReasonSite(table []siteReason, fns []string, kind string, exprs []str
 				okF = true // a reason may name a function (suffix) or a whole package ("mpc/ps.")
 			}
 		}
+		if !okF && r.fn != "" && !strings.HasSuffix(r.fn, ".") && reasonFnGone(r.fn) {
+			for _, fn := range fns {
+				if strings.HasPrefix(strings.TrimLeft(fn, "(*"), pkgOfReasonFn(r.fn)+".") {
+					okF = true // the helper that held the panic was inlined: the text identifies it in its package
+				}
+			}
+		}
 		okE := r.expr == ""
 		for _, e := range exprs {
-			if strings.HasPrefix(e, r.expr) {
+			if strings.HasPrefix(nameBack(e), r.expr) {
 				okE = true
 			}
 		}
@@ -101,12 +109,12 @@ func checkC10(c *Ctx) {
 	c.notDecided = "absence of hangs in general; panics inside dependencies (tss-lib, mathlib internals beyond the recover wrapper, encoding/asn1); CPU exhaustion"
 	c.Assume("the Go compiler's prove pass only removes bounds checks it has proved (its report lists all remaining ones); mathlib's New{G1,G2}FromBytes recover from malformed encodings (checked below); encoding/asn1 and proto.Unmarshal return errors on malformed input")
 	const P1, P2, P3, P4, R1, R2 = "C10.P1", "C10.P2", "C10.P3", "C10.P4", "C10.R1", "C10.R2"
-	c.Rule(P1, "every panic-capable construct in the network-reachable closure is discharged", 120)
-	c.Rule(P2, "wire-sized allocations are bounded", 2)
-	c.Rule(P3, "blocking sends on the dispatcher's path have a reason", 3)
+	c.Rule(P1, "every panic-capable construct in the network-reachable closure is discharged", 60)
+	c.Rule(P2, "wire-sized allocations are bounded", 1)
+	c.Rule(P3, "blocking sends on the dispatcher's path have a reason", 1)
 	c.Rule(P4, "no process-exit call in the closure", 0)
-	c.Rule(R1, "mathlib point parsing recovers from panics (dependency's source)", 2)
-	c.Rule(R2, "premises of frozen reasons that are statements about this code (synchroniser decoder contract; digest lengths; parse before store)", 10)
+	c.Rule(R1, "mathlib point parsing recovers from panics (dependency's source)", 1)
+	c.Rule(R2, "premises of frozen reasons that are statements about this code (synchroniser decoder contract; digest lengths; parse before store)", 5)
 	ruleC10DiscDecoderContract(c, R2)
 	ruleC10DigestLengths(c, R2)
 	ruleC10ParseBeforeStore(c, R2)
@@ -116,6 +124,14 @@ func checkC10(c *Ctx) {
 		if pm == nil {
 			continue
 		}
+		// the functions the frozen reasons name are anchors (found again after a rename)
+		for _, r := range c10Reasons {
+			c.anchorReasonFn(r.fn)
+		}
+		for _, r := range panicReasons {
+			c.anchorReasonFn(r.fnSuffix)
+		}
+		pm.m.resolveAllAnchors()
 		sites := pm.sites(c)
 		c.extra["closure_functions_"+strings.ReplaceAll(rel, "/", "_")] = len(pm.closure)
 		for _, s := range sites {
@@ -205,7 +221,8 @@ func checkC10(c *Ctx) {
 				// sends inside a select with default are non-blocking and appear as Select, not Send
 				fn := FuncName(f)
 				expr := render(snd.Chan)
-				if r, ok := lookupReason(c10Reasons, fn, "block", expr); ok {
+				site := mkSite("block", snd, func() string { return render(snd.Chan) }, "")
+				if r, ok := pm.siteReason(site); ok {
 					c.OK(P3, fn, "send on "+expr, pm.m.Pos(snd.Pos()), "reason: "+r)
 				} else {
 					c.Bad(P3, fn, "send on "+expr, pm.m.Pos(snd.Pos()), "a channel send on the path of a message dispatcher can block that dispatcher for ever (no reason recorded why it cannot)")
